@@ -2,6 +2,7 @@ import NxProofs.NexStreams
 import NxProofs.NexCommon
 import NxProofs.NexErrors
 import NxProofs.NexDateTime
+import NxProofs.NexDateTimeInv
 import NxProofs.C15Zone
 import NxProofs.NexStationURL
 import NxProofs.NexObjWalk
@@ -19,8 +20,9 @@ where `struct.pack` raises — see the `…_ok_iff` theorems), the reader applie
 value and leaves exactly `rest`, for every `rest`.
 
 NOT proved here (differential only, see manifest): typed `getitem` after `parse (repr u)` for *int-valued*
-parameters (needs `int(str(n)) = n` for the modelled `int()`; model and tie exist, the proof does not);
-`civilOfDays (daysOfCivil y m d) = (y, m, d)` (the other direction of the calendar bijection).
+parameters (needs `int(str(n)) = n` for the modelled `int()`; model and tie exist, the proof does not).
+(The other direction of the calendar bijection, `civilOfDays (daysOfCivil y m d) = (y, m, d)`, IS proved now:
+`civil_roundtrip_inverse`, `civil_date_of_day_unique`.)
 -/
 namespace Nx.C15
 open Nx Nx.Nex
@@ -206,6 +208,29 @@ theorem civil_roundtrip (z : Nat) :
     1 ≤ (civilOfDays z).2.1 ∧ (civilOfDays z).2.1 ≤ 12 ∧ 1 ≤ (civilOfDays z).2.2 ∧
     (civilOfDays z).2.2 ≤ daysInMonth (civilOfDays z).1 (civilOfDays z).2.1 :=
   ⟨daysOfCivil_civilOfDays z, civilOfDays_valid z⟩
+
+open DateTime in
+/-- civil date → days → civil date is the identity on every valid calendar date of every year ≥ 1 (no upper bound):
+with `civil_roundtrip` the two conversions are mutually inverse bijections between day numbers and valid dates -/
+theorem civil_roundtrip_inverse (y m d : Nat) (hy : 1 ≤ y) (hm1 : 1 ≤ m) (hm2 : m ≤ 12) (hd1 : 1 ≤ d)
+    (hd2 : d ≤ daysInMonth y m) : civilOfDays (daysOfCivil y m d) = (y, m, d) :=
+  civilOfDays_daysOfCivil y m d hy hm1 hm2 hd1 hd2
+
+open DateTime in
+/-- two valid calendar dates with the same day number are the same date (no two dates share a Unix day) -/
+theorem civil_date_of_day_unique (y m d y' m' d' : Nat)
+    (hy : 1 ≤ y) (hm1 : 1 ≤ m) (hm2 : m ≤ 12) (hd1 : 1 ≤ d) (hd2 : d ≤ daysInMonth y m)
+    (hy' : 1 ≤ y') (hm1' : 1 ≤ m') (hm2' : m' ≤ 12) (hd1' : 1 ≤ d') (hd2' : d' ≤ daysInMonth y' m')
+    (h : daysOfCivil y m d = daysOfCivil y' m' d') : (y, m, d) = (y', m', d') := by
+  rw [← civilOfDays_daysOfCivil y m d hy hm1 hm2 hd1 hd2, h, civilOfDays_daysOfCivil y' m' d' hy' hm1' hm2' hd1' hd2']
+
+/-- the hypotheses are satisfiable at the corners: 29 February of a leap year, 31 December 9999, 1 January of year 1 -/
+example : DateTime.civilOfDays (DateTime.daysOfCivil 2024 2 29) = (2024, 2, 29) ∧ (29 : Nat) ≤ DateTime.daysInMonth 2024 2 ∧
+    DateTime.civilOfDays (DateTime.daysOfCivil 9999 12 31) = (9999, 12, 31) ∧
+    DateTime.civilOfDays (DateTime.daysOfCivil 1 1 1) = (1, 1, 1) := by decide
+
+/-- and the guard is needed: 29 February of a common year is not a date, and does not come back -/
+example : DateTime.civilOfDays (DateTime.daysOfCivil 2023 2 29) = (2023, 3, 1) := by decide
 
 /- Full statement wanted by the property (NOT provable for the code as it is — see the counterexample):
    ∀ off t, the local date of `t` lies in 1970..9999 → ∃ v, fromTimestamp off t = ok v ∧ timestamp off v = ok t.
